@@ -305,6 +305,14 @@ where
         // read the remainder polynomial from the channel and make sure it agrees with the evaluations
         // from the previous layer.
         let remainder_poly = channel.read_remainder()?;
+
+        // make sure the remainder is the one the prover committed to before the query positions
+        // were drawn; the commitment to the remainder is the last of the layer commitments
+        let remainder_commitment = <H as ElementHasher>::hash_elements(&remainder_poly);
+        if self.layer_commitments.last() != Some(&remainder_commitment) {
+            return Err(VerifierError::RemainderCommitmentMismatch);
+        }
+
         if remainder_poly.len() > max_degree_plus_1 {
             return Err(VerifierError::RemainderDegreeMismatch(max_degree_plus_1 - 1));
         }
